@@ -838,8 +838,8 @@ def model_prog(d):
 
 
 def model_requests(traces):
-    # BOB_VERIF_C15_FF=1: compare with the model of the PATCHED OpenLocked.__exit__ (development experiment only)
-    reqs = [{"op": "reset", "ff": os.environ.get("BOB_VERIF_C15_FF") == "1"}]
+    # the driver follows the variant of the code that tools/consts/c15.py found in the current source
+    reqs = [{"op": "reset"}]
     for t in traces:
         reqs.append({"op": "procs", "progs": [model_prog(d) for d in t["procs"]]})
         for s in t["steps"]:
